@@ -379,6 +379,9 @@ func ReadFavrec(file *os.File) (favrec *FavRaw, err error) {
 	}
 
 	nFavh := favrec.getDataNumber()
+	if nFavh < 0 {
+		return nil, ErrInvalidFavRecord
+	}
 	favrec.LineID = 0
 	favrec.FolderID = 0
 	favrec.Favh = make([]*FavType, nFavh)
